@@ -101,6 +101,9 @@ func (vc *VC) execCall(x *ssa.Call, c *ssa.CallCommon, st *State, holder ssa.Val
 			calleeName = calleeName[i+1:]
 		}
 		if spec == nil {
+			if vc.inlineCall(x, f, c, st) {
+				return
+			}
 			vc.fail("no contract for callee %s", funcKey(f))
 		}
 		pureKey = funcKey(f)
@@ -761,6 +764,14 @@ func (vc *VC) execAtomicMethod(x *ssa.Call, f *ssa.Function, c *ssa.CallCommon, 
 // ---------- return / panic ----------
 
 func (vc *VC) execReturn(x *ssa.Return, st *State) {
+	if vc.inl != nil {
+		var rs []string
+		for _, r := range x.Results {
+			rs = append(rs, vc.val(r))
+		}
+		vc.inl.rets = append(vc.inl.rets, inlineRet{cond: vc.reach[vc.curBlock], st: st.clone(), results: rs, from: vc.curBlock})
+		return
+	}
 	if vc.discovery {
 		return
 	}
@@ -958,4 +969,133 @@ func (vc *VC) tryHint(env *Env, h Hint, reach string) {
 		}
 	}()
 	env.applyHint(h, reach)
+}
+
+// ---------- in-place execution of contract-less callees ----------
+
+type inlineRet struct {
+	cond    string
+	st      *State
+	results []string
+	from    *ssa.BasicBlock
+}
+
+type inlineFrame struct {
+	parent *inlineFrame
+	fn   *ssa.Function
+	rets []inlineRet
+}
+
+// inlinable: a function of this repository without loops, defers, goroutines or free variables, of moderate size.
+func inlinable(f *ssa.Function) ([]*ssa.BasicBlock, bool) {
+	if f == nil || len(f.Blocks) == 0 || len(f.Blocks) > 60 || len(f.FreeVars) > 0 || f.Recover != nil {
+		return nil, false
+	}
+	for _, b := range f.Blocks {
+		for _, s := range b.Succs {
+			if s.Dominates(b) {
+				return nil, false // loop
+			}
+		}
+		for _, in := range b.Instrs {
+			switch in.(type) {
+			case *ssa.Defer, *ssa.Go, *ssa.RunDefers, *ssa.Select:
+				return nil, false
+			}
+		}
+	}
+	// reverse postorder
+	seen := map[*ssa.BasicBlock]bool{}
+	var post []*ssa.BasicBlock
+	var dfs func(b *ssa.BasicBlock)
+	dfs = func(b *ssa.BasicBlock) {
+		seen[b] = true
+		for _, s := range b.Succs {
+			if !seen[s] {
+				dfs(s)
+			}
+		}
+		post = append(post, b)
+	}
+	dfs(f.Blocks[0])
+	for i, j := 0, len(post)-1; i < j; i, j = i+1, j-1 {
+		post[i], post[j] = post[j], post[i]
+	}
+	return post, true
+}
+
+// inlineCall executes the body of a callee that has no contract at the call site (loop-free callees only).
+// Its safety obligations and explicit panics are charged to the caller.
+func (vc *VC) inlineCall(x *ssa.Call, f *ssa.Function, c *ssa.CallCommon, st *State) bool {
+	order, ok := inlinable(f)
+	if !ok || vc.inlDepth >= 4 {
+		return false
+	}
+	if f.Pkg == nil || !strings.HasPrefix(f.Pkg.Pkg.Path()+"/", modPrefix) {
+		return false
+	}
+	for fr := vc.inl; fr != nil; fr = fr.parent {
+		if fr.fn == f {
+			return false
+		}
+	}
+	if len(c.Args) != len(f.Params) {
+		return false
+	}
+	for i, p := range f.Params {
+		vc.vals[p] = vc.val(c.Args[i])
+		if l, ok := vc.locs[c.Args[i]]; ok {
+			vc.locs[p] = l
+		}
+		if ci, ok := vc.clos[c.Args[i]]; ok {
+			vc.clos[p] = ci
+		}
+	}
+	savedInl, savedBlock, savedActive, savedState := vc.inl, vc.curBlock, vc.active, vc.curState
+	callReach := vc.reach[vc.curBlock]
+	fr := &inlineFrame{fn: f, parent: vc.inl}
+	vc.inl = fr
+	vc.inlDepth++
+	vc.reach[f.Blocks[0]] = callReach
+	vc.notes = append(vc.notes, "callee without contract executed in place: "+funcKey(f))
+	work := st.clone()
+	vc.execBlocks(order, work)
+	vc.inl = savedInl
+	vc.inlDepth--
+	vc.curBlock, vc.active, vc.curState = savedBlock, savedActive, savedState
+	if len(fr.rets) == 0 {
+		vc.fail("callee %s executed in place never returns", funcKey(f))
+	}
+	var edges []inEdge
+	var conds []string
+	for _, r := range fr.rets {
+		edges = append(edges, inEdge{r.cond, r.st, r.from})
+		conds = append(conds, r.cond)
+	}
+	merged := vc.mergeStates(edges)
+	st.heaps = merged.heaps
+	st.alloc = merged.alloc
+	// paths on which the callee panicked do not continue
+	vc.assumeIf(callReach, orTerms(conds))
+	if x != nil {
+		n := f.Signature.Results().Len()
+		res := make([]string, n)
+		for k := 0; k < n; k++ {
+			t := fr.rets[len(fr.rets)-1].results[k]
+			for i := len(fr.rets) - 2; i >= 0; i-- {
+				if fr.rets[i].results[k] == t {
+					continue
+				}
+				t = fmt.Sprintf("(ite %s %s %s)", fr.rets[i].cond, fr.rets[i].results[k], t)
+			}
+			res[k] = vc.define("inl."+f.Name(), vc.d.sortOf(f.Signature.Results().At(k).Type()), t)
+		}
+		switch {
+		case n == 1:
+			vc.vals[x] = res[0]
+		case n > 1:
+			vc.tuples[x] = res
+		}
+	}
+	return true
 }
